@@ -568,4 +568,12 @@ class StyleAttribute:
 
     raw_value = xml_element.attrib.get(StyleAttribute.qn)
 
-    return raw_value.split() if raw_value is not None else []
+    if raw_value is None:
+      return []
+
+    style_ids = raw_value.split()
+
+    if len(style_ids) == 0:
+      LOGGER.error("style attribute without a style id")
+
+    return style_ids
